@@ -56,6 +56,7 @@ def run(chk, repo: Repo):
     _r1(chk, repo)
     _r1_breakdown(chk, repo)
     _r1_result_returned(chk, repo)
+    _r1_relative_tolerance(chk, repo)
     _r2(chk, repo)
     _r3(chk, repo)
     _r4_r5(chk, repo)
@@ -195,6 +196,37 @@ def _r1_breakdown(chk, repo):
                 f"operator/preconditioner, so for a differently scaled but equally well conditioned problem the step length is clamped and the iteration stagnates", clamps[0].ast)
 
 
+def _r1_relative_tolerance(chk, repo):
+    """(P)CGLS stop on RELATIVE quantities (normal-equation residual against its initial value, iterate norm times tol): the iteration is invariant under a
+    rescaling of the data.  Every comparison that reads `self.tol` and selects an exit from the iteration (or a return) has the tolerance as a factor of a
+    product with a norm of the problem - a bare `norm <= self.tol` is an absolute test: for data of order 1e-9 the start vector is returned after 0 steps."""
+    from ..flow import Expander
+    from .common import canon_fn
+    n = 0
+    for cls in ("CGLS", "PCGLS"):
+        ci = repo.cls(f"{SOLVER}:{cls}")
+        src = repo.method(ci, "solve")[1]
+        v = canon_fn(repo, ci, src, 1)
+        ex = Expander(v)
+        bad = []
+        for cmp_ in [c for c in ast.walk(v) if isinstance(c, ast.Compare)]:
+            node = ex.cfg.stmt_node_containing(cmp_)
+            e = ex.expand(cmp_, node, stop=frozenset()) if node is not None else cmp_
+            sides = [e.left] + list(e.comparators)
+            if not any(path_of(x) == "self.tol" for s_ in sides for x in ast.walk(s_)):
+                continue
+            n += 1
+            for s_ in sides:
+                if path_of(s_) == "self.tol":
+                    bad.append(cmp_)          # the tolerance alone on one side of the comparison
+        chk.add("C16-R1", f"{ci.qual}.solve/relative-tolerance", not bad, site(repo, bad[0]) if bad else site(repo, src),
+                "every stopping comparison uses the tolerance relative to a norm of the problem",
+                f"`{unparse(bad[0])[:80] if bad else ''}` compares a quantity with the bare tolerance: an absolute test in a scale-invariant iteration "
+                f"(small-magnitude data stop before the first step and the start vector is returned as the solution)", bad[0] if bad else src)
+    if n < 2:
+        raise AnchorError(f"{n} stopping comparisons that read self.tol found in CGLS/PCGLS, at least 2 confirmed by hand")
+
+
 def _r1_result_returned(chk, repo):
     """(P)CGLS hand back the iterate the loop produced: after the iteration loop every path ends in the `return (x, k)`. The post-loop diagnostics
     (negative curvature, `shrink <= sqrt(tol)`) are heuristics inherited from the reference implementation, where they only set a flag: `shrink` compares
@@ -291,7 +323,26 @@ def _r2(chk, repo):
             chk.ok("C16-R2", inst, f"{ci.module.rel}:{ci.node.lineno}", f"{nops} in-place operations, none may reach {sorted(inputs)}")
 
 
+def _r3_method_default(chk, repo):
+    """the SciPy wrappers leave the choice of algorithm to SciPy unless the caller names one: `method` defaults to None in minimize / maximize (SciPy then
+    picks BFGS, L-BFGS-B or SLSQP according to bounds and constraints; a named default such as 'BFGS' ignores the caller's bounds / constraints with a
+    warning only and returns the infeasible unconstrained optimum)"""
+    from .common import default_literal
+    for cls in ("minimize", "maximize"):
+        ci = repo.cls(f"{SOLVER}:{cls}")
+        init = repo.method(ci, "__init__")[1]
+        a = init.args
+        d = dict(zip(reversed([x.arg for x in a.args]), reversed(a.defaults)))
+        d.update({k.arg: v for k, v in zip(a.kwonlyargs, a.kw_defaults) if v is not None})
+        rec = "method" in [x.arg for x in a.args + a.kwonlyargs]
+        ok = rec and "method" in d and isinstance(d["method"], ast.Constant) and d["method"].value is None
+        chk.decide("C16-R3", f"{ci.qual}.__init__/method-default", ok, rec, site(repo, init), "method defaults to None (SciPy chooses by bounds / constraints)",
+                   f"`method` defaults to `{unparse(d['method']) if 'method' in d else '<required>'}`: with bounds or constraints and no explicit method SciPy is "
+                   f"told to run that algorithm, which ignores them - the wrapper returns another point than scipy.optimize.minimize", init)
+
+
 def _r3(chk, repo):
+    _r3_method_default(chk, repo)
     mx = repo.cls(f"{SOLVER}:maximize")
     init = repo.method(mx, "__init__")[1]
     # what reaches minimize.__init__, followed path by path over "a gradient is given": the objective must be the negated function and the gradient the
